@@ -5,7 +5,8 @@ clean tree; demo fails on the patched tree; the existing test suite passes on th
 import json, os, subprocess, sys, shutil, glob
 from concurrent.futures import ThreadPoolExecutor
 
-SEED = "/tmp/seed"
+SEED = os.environ.get("SEED_DIR", "/tmp/seed")
+OFFSET = int(os.environ.get("SEED_OFFSET", "0"))   # round 2: outputs 1, 2 are stored as <Cxx>-4, <Cxx>-5
 OUT = "/verif/seeded"
 ENV = dict(os.environ, CARGO_NET_OFFLINE="true")
 
@@ -57,11 +58,11 @@ def verify(worker, items):
             res["status"] = "confirmed" if ok else "NOT confirmed"
             if not ok: res["log_tail"] = (o1[-600:] if not res["clean_demo_passes"] else "") + (o2[-600:] if not res["patched_demo_fails"] else "") + (o3[-600:] if not res["patched_suite_passes"] else "")
             sh(["git", "checkout", "--", "."], wt)
-        od = os.path.join(OUT, f"{prop}-{n}")
+        od = os.path.join(OUT, f"{prop}-{int(n) + OFFSET}")
         os.makedirs(od, exist_ok=True)
         for f in ("patch.diff", "demo.rs"):
             shutil.copy(os.path.join(d, f), os.path.join(od, f))
-        meta_out = dict(property=prop, seed=n, title=meta.get("title"), breaks_clause=meta.get("breaks_clause"),
+        meta_out = dict(property=prop, seed=int(n) + OFFSET, round=(2 if OFFSET else 1), title=meta.get("title"), breaks_clause=meta.get("breaks_clause"),
                         needs_to_manifest=meta.get("needs_to_manifest"), features=feats, demo_cmd=meta.get("demo_cmd"),
                         files_changed=meta.get("files_changed"), author="independent sub-agent given only the property text and a scratch worktree",
                         confirmed=res)
